@@ -109,10 +109,13 @@ def install_files(recs, cookies, gz, gfa_gz=False):
     return lines, name
 
 
-def run_index(recs, cookies, gz=False):
+def run_index(recs, cookies, gz=False, default_path=False):
     I = M["I"]
     lines, gname = install_files(recs, cookies, gz)
-    I.run("in.gaf", gname, output="in.gaf.gvi")
+    if default_path:
+        I.run("in.gaf", gname)  # the index goes next to the GAF: <GAF>.gvi
+    else:
+        I.run("in.gaf", gname, output="in.gaf.gvi")
     return stubs.env().pickles.get("in.gaf.gvi"), lines
 
 
@@ -189,3 +192,55 @@ def real_offsets(gaf):
         offs.append(o)
     fh.close()
     return offs
+
+
+def big_bgzf_index(wd, recs, rep=1500):
+    """the same records repeated `rep` times through bgzip (several BGZF blocks): every offset listed for a node must resolve,
+    through the real BGZF handle, to a record that traverses the node, and every traversing record must be listed.
+    Returns None or a description of the first problem."""
+    import pickle
+    import pysam
+    import gaftools.cli.index as I
+    from pysam import libcbgzf
+
+    gfa = os.path.join(wd, "big.gfa")
+    open(gfa, "w").write("".join(gfa_lines()))
+    gaf = os.path.join(wd, "big.gaf")
+    tags = "".join("\t" + k + v for k, v in TAGS)
+    with open(gaf, "w") as fh:
+        for j in range(rep):
+            for i, r in enumerate(recs):
+                fh.write("r%dx%d\t50\t0\t10\t+\t%s\t%d\t%d\t%d\t9\t10\t60%s\tzz:Z:%s\n" % (i, j, r[0], r[1], r[2], r[3], tags, "pad" * 10))
+    pysam.tabix_compress(gaf, gaf + ".gz", force=True)
+    out = os.path.join(wd, "big.gvi")
+    try:
+        I.run(gaf + ".gz", gfa, output=out)
+    except BaseException as e:  # noqa
+        return "gaftools index on a %d-record BGZF file raised %s: %s" % (rep * len(recs), type(e).__name__, e)
+    idx = pickle.load(open(out, "rb"))
+    fh = libcbgzf.BGZFile(gaf + ".gz", "rb")
+    expected = {}
+    for i, r in enumerate(recs):
+        for n in expected_nodes(r):
+            expected.setdefault(n, set()).add(i)
+    for k, offs in idx.items():
+        if k == "ref_contig":
+            continue
+        seen = {}
+        for o in offs[:40] + offs[-40:]:
+            try:
+                fh.seek(o)
+                line = fh.readline().decode()
+            except Exception as e:
+                return "offset %r listed for node %s cannot be resolved in the multi-block BGZF file: %r" % (o, k[0], e)
+            name = line.split("\t")[0]
+            if not (name.startswith("r") and "x" in name):
+                return "offset %r listed for node %s does not point at the start of a record (%r...)" % (o, k[0], line[:30])
+            i = int(name[1:name.index("x")])
+            if i not in expected.get(k[0], ()):
+                return "offset %r listed for node %s resolves to record %s which does not traverse it" % (o, k[0], name)
+        want = len(expected.get(k[0], ())) * rep
+        if len(set(offs)) < want:
+            return "node %s lists %d distinct offsets, %d records traverse it" % (k[0], len(set(offs)), want)
+    fh.close()
+    return None
